@@ -11,9 +11,11 @@ import (
 	"fmt"
 	"math/rand"
 	"os"
+	"bytes"
 	"path/filepath"
 	"strings"
 	"time"
+	"unicode/utf8"
 
 	"github.com/reeflective/readline"
 )
@@ -30,6 +32,8 @@ type report struct {
 	Sequences int            `json:"sequences"`
 	Reopens   int            `json:"reopens"`
 	Cuts      int            `json:"cut_points"`
+	Laws      int            `json:"codec_law_checks"`
+	Decided   int            `json:"distinct_decided"`
 	Classes   map[string]int `json:"classes"`
 	BySig     map[string]int `json:"findings_by_signature"`
 	Findings  []finding      `json:"findings"`
@@ -94,6 +98,64 @@ func main() {
 			}
 		}
 		rep.Findings = append(rep.Findings, f)
+	}
+	// --- the codec laws the Lean theorems assume (Model/HistFile.CodecLaws), on the real functions:
+	// the record of a block is what Write appends to an empty file
+	lawPool := append([]string{}, pool...)
+	for k := 0; k < *n; k++ {
+		var sb strings.Builder
+		for j := 1 + r.Intn(12); j > 0; j-- {
+			switch r.Intn(6) {
+			case 0:
+				sb.WriteRune(rune(r.Intn(0x20)))
+			case 1:
+				sb.WriteString([]string{"\"", "\\", "<", ">", "&", "\u2028", "\u2029", "}", "{", "\"block\":\"x\"", "\r", "\n"}[r.Intn(12)])
+			case 2:
+				c := rune(r.Intn(0x10ffff))
+				if utf8.ValidRune(c) {
+					sb.WriteRune(c)
+				}
+			default:
+				sb.WriteByte(byte(0x20 + r.Intn(0x5f)))
+			}
+		}
+		lawPool = append(lawPool, sb.String())
+	}
+	seenLaw := map[string]bool{}
+	for k, l := range lawPool {
+		b := strings.TrimSpace(l)
+		if b == "" || !utf8.ValidString(b) || seenLaw[b] {
+			continue
+		}
+		seenLaw[b] = true
+		path := filepath.Join(work, fmt.Sprintf("law%d", k))
+		h, _ := readline.NewHistoryFromFile(path)
+		h.Write(l)
+		rec, _ := os.ReadFile(path)
+		rep.Laws++
+		if len(rec) < 2 || rec[len(rec)-1] != '\n' {
+			add(finding{"codec-law/record-ends-with-newline", fmt.Sprintf("%q is stored as %q", b, rec), []string{l}, -1})
+			continue
+		}
+		enc := rec[:len(rec)-1]
+		if bytes.ContainsAny(enc, "\n\r") {
+			add(finding{"codec-law/no-newline-inside-record", fmt.Sprintf("%q is stored as %q", b, rec), []string{l}, -1})
+		}
+		if got, _ := contents(path); !eq(got, []string{b}) {
+			add(finding{"codec-law/roundtrip", fmt.Sprintf("%q is stored as %q and read back as %q", b, rec, got), []string{l}, -1})
+		}
+		step := 1
+		if len(enc) > 300 {
+			step = len(enc) / 150
+		}
+		for cut := 0; cut < len(enc); cut += step {
+			os.WriteFile(path, enc[:cut], 0o600)
+			if got, _ := contents(path); len(got) != 0 {
+				add(finding{"codec-law/prefix-undecodable", fmt.Sprintf("the first %d bytes of the record of %q read back as %q", cut, b, got), []string{l}, cut})
+				break
+			}
+		}
+		os.Remove(path)
 	}
 	for i := 0; i < *n; i++ {
 		path := filepath.Join(work, fmt.Sprintf("h%d", i))
@@ -178,6 +240,7 @@ func main() {
 			}
 		}
 	}
+	rep.Decided = rep.Laws + rep.Cuts
 	rep.WallS = time.Since(t0).Seconds()
 	b, _ := json.MarshalIndent(rep, "", " ")
 	if *out != "" {
